@@ -357,6 +357,18 @@ class Unit:
         out.append(f"end {self.namespace}\n")
         return "\n".join(out)
 
+    def render_with(self, title: str, others: list["Unit"]) -> str:
+        """one generated file for several units (several source files): this unit's header and body, then the bodies
+        (with their own trusted-assumption comment) of the others"""
+        text = self.render(title)
+        for u in others:
+            t = u.render(f"(continued) definitions generated from {u.relpath}")
+            head, body = t.split("import IrisVerif.Model.QMatNp\n", 1)
+            body = body.replace("set_option linter.unusedVariables false\n\n", "", 1)
+            comment = head[head.index("/-"):]
+            text = text.rstrip("\n") + "\n\n" + comment + body.lstrip("\n")
+        return text
+
     def used_classes(self) -> set[str]:
         return getattr(self, "_used_classes", set())
 
@@ -1456,7 +1468,7 @@ SOLUTION = ClassSpec(
 )
 
 ACOV_FUNCTIONS = ["get_cov_alpha_00", "get_cov_triangular_00", "get_autocov_triangular_00", "get_autocov_square_00",
-                  "get_autocov_square", "symmetrize"]
+                  "get_autocov_square"]
 
 
 def gen_acov(repo: str) -> str:
